@@ -197,9 +197,9 @@ def rule_tree_sem(ctx: RuleContext, p: Program, rid: str) -> None:
     problem = ''
     ign_type = sorted(_ign)[0] if _ign else 'WHITESPACE'      # a dropped sub-tree holds zero-width marks or tokens of an %ignore'd type
     thorough = getattr(ctx, 'tier', 'quick') == 'thorough'
-    gap_modes = ['none', 'blank', 'marks', 'tail']
+    gap_modes = [('none', False), ('none', True), ('blank', False), ('blank', True), ('marks', False), ('tail', False), ('tail', True)]
     for root in _family(thorough):
-        for gaps in gap_modes:
+        for gaps, inline in gap_modes:
             # lay the mock out: lexer tokens in document order, lark tree over them
             toks: list = []
             counter = [0]
@@ -247,9 +247,11 @@ def rule_tree_sem(ctx: RuleContext, p: Program, rid: str) -> None:
             store = possem.Obj('Store', {'log': []}, 'store')
             me = possem.Obj('ModelBuilder', {'_tokens': list(toks), '_built_tokens': [], '_cursor': 0, '_token_store': store,
                                              '_token_to_index': {id(t): i for i, t in enumerate(toks)}}, 'builder')
-            target = possem.Obj('Target', {}, 'target type')
+            # the type the text is parsed as: a line-oriented model, or an inline one (INLINE = True: amounts, number expressions, cost specs)
+            target = possem.Obj('Target', {'INLINE': inline, 'RULE': 'rule'}, 'target type')
             cases += 1
-            shown = f'parse result {root.show()} (T leaf, None absent optional, [..] repeated section, <..> dropped sub-tree, indent), gaps: {gaps}'
+            shown = (f'parse result {root.show()} (T leaf, None absent optional, [..] repeated section, <..> dropped sub-tree, indent), gaps: {gaps}, parsed as '
+                     f'{"an inline" if inline else "a line-oriented"} model')
             try:
                 res = Interp(ts, [], module=m).call_function(build, [me, tree, target], {})
             except possem.Raised as ex:
